@@ -93,6 +93,8 @@ pub fn cell_eq(a: &Cell, b: &Cell) -> bool {
         (Cell::S(x), Cell::S(y)) => x == y,
         (Cell::Date(x), Cell::Date(y)) => x == y,
         (Cell::Bool(x), Cell::Bool(y)) => x == y,
+        // the SQLite arbiter stores dates as ISO text
+        (Cell::Date(d), Cell::S(s)) | (Cell::S(s), Cell::Date(d)) => crate::data::date_to_string(*d) == *s,
         // booleans may come back as 0/1 integers from some paths
         (Cell::Bool(x), Cell::Int(y)) | (Cell::Int(y), Cell::Bool(x)) => (*x as i64) == *y,
         _ => false,
@@ -105,7 +107,7 @@ fn rank(c: &Cell) -> u8 {
         Cell::Bool(_) => 1,
         Cell::Int(_) | Cell::F(_) => 1,
         Cell::S(_) => 3,
-        Cell::Date(_) => 4,
+        Cell::Date(_) => 3,
     }
 }
 
@@ -119,6 +121,8 @@ pub fn cell_cmp(a: &Cell, b: &Cell) -> Ordering {
         (Cell::Int(x), Cell::Int(y)) => x.cmp(y),
         (Cell::S(x), Cell::S(y)) => x.cmp(y),
         (Cell::Date(x), Cell::Date(y)) => x.cmp(y),
+        (Cell::Date(x), Cell::S(y)) => crate::data::date_to_string(*x).cmp(y),
+        (Cell::S(x), Cell::Date(y)) => x.cmp(&crate::data::date_to_string(*y)),
         (Cell::Null, Cell::Null) => Ordering::Equal,
         _ => {
             let fx = match a {
